@@ -213,6 +213,11 @@ func runBatch(t fataler, format string, instants []int64) {
 	c := c16Case{Format: format, Instants: instants}
 	ev.CaseH(true, mix(strHash(format), uint64(instants[0]), uint64(len(instants)), uint64(instants[len(instants)-1])), "format-"+format)
 	ev.AddEvals(len(instants) - 1) // every instant of the batch is an evaluated input; distinct counts batches (conservative)
+	head := instants
+	if len(head) > 6 {
+		head = head[:6]
+	}
+	ev.Sample("batch-"+format, map[string]any{"format": format, "instants_in_batch": len(instants), "first_instants_ns": head})
 	msg := guarded(func() string { return checkC16(c) })
 	if msg == "" {
 		return
